@@ -22,7 +22,7 @@ func runC16b(t *testing.T, run *mc.Run) int {
 	}
 	n, dropped := 0, 0
 	var samples []any
-	for _, first := range []string{"login", "session", "busy-session"} {
+	for _, first := range []string{"login", "session", "busy-session", "login+other-logins", "session+other-logins"} {
 		for _, ph := range phases {
 			for _, gap := range gaps {
 				n++
@@ -39,7 +39,9 @@ func runC16b(t *testing.T, run *mc.Run) int {
 						auditgen.Simple("USER_START", 1700000021, 3001, "7", "4242", "success").Recs[0].Line,
 						auditgen.Simple("USER_ACCT", 1700000022, 3002, "7", "4242", "success").Recs[0].Line,
 					}
-					if first == "login" {
+					otherLogins := first == "login+other-logins" || first == "session+other-logins"
+					loginFirst := first == "login" || first == "login+other-logins"
+					if loginFirst {
 						r.offerLogin(lg)
 					} else {
 						for _, l := range sessLines {
@@ -61,11 +63,26 @@ func runC16b(t *testing.T, run *mc.Run) int {
 								extra++
 							}
 						}
+					} else if otherLogins {
+						// unrelated logins keep arriving every 20 s (a busy host): traffic on the logins channel must
+						// neither keep the pending half alive nor put the periodic cleanup off
+						for slept := time.Duration(0); slept < gap; {
+							step := 20 * time.Second
+							if gap-slept < step {
+								step = gap - slept
+							}
+							vsleep(step)
+							slept += step
+							if slept < gap {
+								busySeq++
+								r.offerLogin(mkLogin(5000+busySeq%20000, fmt.Sprint(100+busySeq%50)))
+							}
+						}
 					} else {
 						vsleep(gap)
 					}
 					lg2 := lg
-					if first == "login" {
+					if loginFirst {
 						for _, l := range sessLines {
 							r.offerLine(l + "\n")
 						}
@@ -104,7 +121,7 @@ func runC16b(t *testing.T, run *mc.Run) int {
 		}
 	}
 	cov := mc.Coverage{Level: "model_checking", States: n, Transitions: n * 8, Traces: n, Evaluations: n, Distinct: dropped, Exhaustive: true, Samples: samples,
-		Rule:  "the real Auditd.Read under testing/synctest's virtual clock: first half in {login, LOGIN record + 2 events, the same session producing a further event every 20 s} x phase of its arrival within the cleanup period x gap to the second half, then two probe events; gap < 60 s must correlate (5 events), gap > 120 s must emit nothing ever; 60..120 s unjudged. distinct_nontrivial = cells in which the pending half must have been discarded",
+		Rule:  "the real Auditd.Read under testing/synctest's virtual clock: first half in {login, LOGIN record + 2 events, the same session producing a further event every 20 s, login / session with unrelated logins arriving every 20 s meanwhile} x phase of its arrival within the cleanup period x gap to the second half, then two probe events; gap < 60 s must correlate (5 events), gap > 120 s must emit nothing ever; 60..120 s unjudged. distinct_nontrivial = cells in which the pending half must have been discarded",
 		Extra: map[string]any{"phases_s": len(phases), "gaps": len(gaps)}}
 	cov.Assumptions = []string{"virtual clock of testing/synctest"}
 	return run.Finish(cov)
